@@ -88,6 +88,11 @@ func wrapConsts(repo string, add func(string, int64, string)) error {
 	}
 	add("cow_mask", v, "copyOnWriteFs.go OpenFile: write path iff flag&MASK != 0")
 
+	if mk := cow.fn("CopyOnWriteFs", "Mkdir"); mk == nil {
+		return fmt.Errorf("copyOnWriteFs.go: CopyOnWriteFs.Mkdir not found")
+	} else {
+		add("cow_mkdir_checks_union", b2i(hasMethodCall(mk, "Stat")), "copyOnWriteFs.go Mkdir: 1 iff it refuses a name the union's Stat finds (overlay or base, file or directory)")
+	}
 	ca, err := parseSrc(repo, "cacheOnReadFs.go")
 	if err != nil {
 		return err
@@ -106,6 +111,42 @@ func wrapConsts(repo string, add func(string, int64, string)) error {
 	}
 	add("cache_mask", v, "cacheOnReadFs.go OpenFile: union handle over both layers iff flag&MASK != 0")
 
+	// CacheOnReadFs.copyToLayer: directories made with MkdirAll instead of copied?
+	fd = ca.fn("CacheOnReadFs", "copyToLayer")
+	if fd == nil {
+		return fmt.Errorf("cacheOnReadFs.go: CacheOnReadFs.copyToLayer not found")
+	}
+	add("cache_copy_dir_mkdir", b2i(hasMethodCall(fd, "MkdirAll")), "cacheOnReadFs.go copyToLayer: 1 iff a base directory is created in the layer with MkdirAll")
+	// CacheOnReadFs.Remove: a `case cacheMiss:` clause of its own?
+	fd = ca.fn("CacheOnReadFs", "Remove")
+	if fd == nil {
+		return fmt.Errorf("cacheOnReadFs.go: CacheOnReadFs.Remove not found")
+	}
+	own := false
+	ast.Inspect(fd, func(n ast.Node) bool {
+		if cc, ok := n.(*ast.CaseClause); ok && len(cc.List) == 1 {
+			if id, ok := cc.List[0].(*ast.Ident); ok && id.Name == "cacheMiss" {
+				for _, st := range cc.Body {
+					if _, ok := st.(*ast.ReturnStmt); ok {
+						own = true
+					}
+				}
+			}
+		}
+		return true
+	})
+	add("cache_remove_miss_base_only", b2i(own), "cacheOnReadFs.go Remove: 1 iff a cache miss returns the base's Remove result without calling the layer")
+	// CacheOnReadFs.OpenFile: `flag &^= os.O_EXCL` after the copy?
+	fd = ca.fn("CacheOnReadFs", "OpenFile")
+	clr := false
+	ast.Inspect(fd, func(n ast.Node) bool {
+		if as, ok := n.(*ast.AssignStmt); ok && as.Tok == token.AND_NOT_ASSIGN {
+			clr = true
+		}
+		return true
+	})
+	add("cache_openfile_clears_excl", b2i(clr), "cacheOnReadFs.go OpenFile: 1 iff O_EXCL is cleared from the flags after copyFileToLayer")
+
 	uf, err := parseSrc(repo, "unionFile.go")
 	if err != nil {
 		return err
@@ -115,6 +156,18 @@ func wrapConsts(repo string, add func(string, int64, string)) error {
 		return fmt.Errorf("unionFile.go: UnionFile.ReadAt not found")
 	}
 	add("union_readat_seeks_base", b2i(hasMethodCall(fd, "Seek")), "unionFile.go ReadAt: 1 iff it seeks the base handle after reading the layer")
+	if cf := uf.fn("", "copyFileToLayer"); cf == nil {
+		return fmt.Errorf("unionFile.go: copyFileToLayer not found")
+	} else {
+		andnot := false
+		ast.Inspect(cf, func(n ast.Node) bool {
+			if be, ok := n.(*ast.BinaryExpr); ok && be.Op == token.AND_NOT {
+				andnot = true
+			}
+			return true
+		})
+		add("copyfiletolayer_clears_append", b2i(andnot), "unionFile.go copyFileToLayer: 1 iff the base is opened with flag&^os.O_APPEND")
+	}
 	fd = uf.fn("UnionFile", "Readdir")
 	if fd == nil {
 		return fmt.Errorf("unionFile.go: UnionFile.Readdir not found")
